@@ -1,7 +1,7 @@
 """C04 - products, quotients and integer powers of quantities are dimensionally exact."""
 import json, time
 from fractions import Fraction as F
-from core import build, unitgen as G, units_ref as R, exact
+from core import build, unitgen as G, units_ref as R, exact, boundary
 from core.driver import Driver, DriverDied, DriverTimeout
 from core.run import Acc, finish, rng_for, run_shards, NCPU
 from c02 import mag
@@ -54,6 +54,20 @@ def gen(rng, V, depth, pools):
         xs, x = mag(rng)
         return ("lit", "%s %s" % (xs, G.text(f, rng)), x * s, dims)
     r = rng.random()
+    if rng.random() < 0.03:
+        # two whole SI values whose product straddles 2^63 / 2^64 / 2^127 / 2^128, on conversion-free units or with the
+        # magnitude carried by an SI prefix (15 Em * 14 Em): fixed-width fast paths in the value arithmetic (seed C04-c)
+        a, b = boundary.big_pair(rng)
+        leaves = []
+        for x in (a, b):
+            e = rng.choice(V.single_dim[rng.choice(sorted(V.single_dim))]) if rng.random() < 0.7 else None
+            if e is not None and V.scale[e["key"]] != 1:
+                e = None
+            if e is None:
+                leaves.append(("lit", str(x), F(x), R.ZERO_DIMS))
+            else:
+                leaves.append(("lit", "%d %s" % (x, e["word"]), F(x) * F(10) ** e["prefix"], e["dims"]))
+        return ("bin", rng.choice("**/"), leaves[0], leaves[1])
     if r < 0.25:
         n = rng.choice([-3, -2, -1, 0, 0, 1, 2, 2, 3])
         return ("bin", "^", gen(rng, V, depth - 1, pools), ("lit", str(n), F(n), None))
